@@ -552,8 +552,8 @@ func c15(c *core.Ctx) {
 	c.Clause("C15.6", "the explicit panic(...) sites and single-result type assertions reachable (VTA call graph, repository packages, not through common/log or metrics) from the frame reader, both encryption handshakes, the message handlers and the block/confirm insertion are exactly an inventoried set, each with the invariant that keeps it away from remote input")
 	c.Run("inventory", func() {
 		roots := []*ssa.Function{
-			c.Fn(p2p + ".Peer.readLoop"), c.Fn(p2p + ".serverEncHandshake"), c.Fn(p2p + ".clientEncHandshake"),
-			c.Fn("network.ProtocolManager.handlePeer"), c.Fn("network.ProtocolManager.handleMsg"), c.Fn("network.ProtocolManager.rcvBlockLoop"),
+			c.FnOrCaller(p2p + ".Peer.readLoop"), c.FnOrCaller(p2p + ".serverEncHandshake"), c.FnOrCaller(p2p + ".clientEncHandshake"),
+			c.FnOrCaller("network.ProtocolManager.handlePeer"), c.FnOrCaller("network.ProtocolManager.handleMsg"), c.FnOrCaller("network.ProtocolManager.rcvBlockLoop"),
 		}
 		cl := cgClosure(c, roots, stop)
 		netClosure = cl
